@@ -56,9 +56,10 @@ VARIABLES sess,     \* [Key -> [ex, a, b, hasCur]]          Server.sessions
           lx,       \* [LCall -> [nonce, repl]]  absolute listen nonce the call registered with; monitor: a newer call registered after it
           badDeliv, \* monitor: delivered while the recipient's announced epoch is not the current one
           dropFlag, \* [Call -> BOOLEAN] request stamped with the announced epoch dropped as stale
-          badReq    \* monitor: a request stamped with a non-current epoch changed state, or an ack did not name the delivered message
+          badReq,   \* monitor: a request stamped with a non-current epoch changed state, or an ack did not name the delivered message
+          pend      \* [Call -> 0..MaxSeq] monitor: the message the call has in flight in the epoch announced to it (0 = none)
 
-vars == <<sess, trk, cst, wch, prevOpen, ret, peers, lst, lusurp, lsent, lwch, lstale, lret, lx, badDeliv, dropFlag, badReq>>
+vars == <<sess, trk, cst, wch, prevOpen, ret, peers, lst, lusurp, lsent, lwch, lstale, lret, lx, badDeliv, dropFlag, badReq, pend>>
 
 Slot(k, isA) == IF isA THEN sess[k].a ELSE sess[k].b
 Local(c) == Slot(KeyOf(c), IsA(c))
@@ -86,6 +87,7 @@ Init ==
   /\ badDeliv = FALSE
   /\ dropFlag = [c \in Call |-> FALSE]
   /\ badReq = FALSE
+  /\ pend = [c \in Call |-> 0]
 
 \* sessionTracker.broadcast(): every registered call of that session holding the current channel is woken
 SessBcast(w, k, had) == [c \in Call |-> IF KeyOf(c) = k /\ had /\ cst[c] = "reg" /\ w[c] = "cur" THEN "closed" ELSE w[c]]
@@ -113,9 +115,10 @@ SessionRegister(c) ==
         /\ sess' = [sess EXCEPT ![k] = [s1 EXCEPT !.hasCur = TRUE]]
         \* fixed: the joiner takes its wait channel before its own broadcast (wakes itself once)
         /\ wch' = [SessBcast(wch, k, s.hasCur) EXCEPT ![c] = IF BugWait THEN "cur" ELSE "closed"]
-        /\ prevOpen' = Bump(prevOpen, k)
+        \* mutation "nobumpself": taking over from the peer's own older call does not start a new epoch
+        /\ prevOpen' = IF Mut = "nobumpself" /\ (IF IsA(c) THEN s.a ELSE s.b) # None THEN prevOpen ELSE Bump(prevOpen, k)
         /\ cst' = [cst EXCEPT ![c] = "reg"]
-  /\ UNCHANGED <<ret, lst, lusurp, lx, lsent, lstale, lret, badDeliv, dropFlag, badReq>>
+  /\ UNCHANGED <<ret, lst, lusurp, lx, lsent, lstale, lret, badDeliv, dropFlag, badReq, pend>>
 
 \* return from Session(): deferred cleanup
 Cleanup(c, why) ==
@@ -141,7 +144,7 @@ Cleanup(c, why) ==
              /\ prevOpen' = IF Mut = "bumpnoncur" THEN Bump(prevOpen, k) ELSE prevOpen
      /\ UNCHANGED <<lst, lusurp, lx, lsent, lret, badDeliv>>
 
-SessionCancel(c) == cst[c] = "reg" /\ Cleanup(c, "cancel") /\ UNCHANGED badReq
+SessionCancel(c) == cst[c] = "reg" /\ Cleanup(c, "cancel") /\ UNCHANGED <<badReq, pend>>
 
 \* stamp \in {"cur","old","future"}; sigOK: signed by the stream identity over the signaling context, intact
 \* Cur(stamp, what): is the request treated as current?  (model mutations treat stale stamps as current)
@@ -150,38 +153,40 @@ Cur(stamp, what) == stamp = "cur" \/ (stamp = "old" /\ Mut = what)
 HandleSend(c, stamp, n, sigOK) ==
   /\ cst[c] = "reg"
   /\ LET k == KeyOf(c)  s == sess[k]  rem == Remote(c) IN
-     IF ~sigOK \/ stamp = "future" THEN Cleanup(c, "err") /\ UNCHANGED badReq
+     IF ~sigOK \/ stamp = "future" THEN Cleanup(c, "err") /\ UNCHANGED <<badReq, pend>>
      ELSE /\ IF Cur(stamp, "sendstale") /\ Local(c) = c /\ rem # None
              THEN /\ trk' = [trk EXCEPT ![rem].recv = n, ![rem].recvSent = 0, ![rem].recvEp = "cur"]
                   /\ wch' = SessBcast(wch, k, s.hasCur)
                   /\ sess' = [sess EXCEPT ![k].hasCur = FALSE]
                   /\ badReq' = (badReq \/ stamp # "cur")
+                  /\ pend' = [pend EXCEPT ![c] = IF stamp = "cur" /\ prevOpen[c] = "cur" THEN n ELSE 0]
                   /\ UNCHANGED dropFlag
-             ELSE /\ UNCHANGED <<trk, wch, sess, badReq>>
+             ELSE /\ UNCHANGED <<trk, wch, sess, badReq, pend>>
                   /\ dropFlag' = [dropFlag EXCEPT ![c] = @ \/ (stamp = "old" /\ prevOpen[c] = "old" /\ Local(c) = c)]
           /\ UNCHANGED <<cst, ret, prevOpen, peers, lst, lusurp, lx, lsent, lwch, lstale, lret, badDeliv>>
 
 HandleAck(c, stamp, n) ==
   /\ cst[c] = "reg"
   /\ LET k == KeyOf(c)  s == sess[k]  rem == Remote(c) IN
-     IF stamp = "future" THEN Cleanup(c, "err") /\ UNCHANGED badReq
+     IF stamp = "future" THEN Cleanup(c, "err") /\ UNCHANGED <<badReq, pend>>
      ELSE /\ IF Cur(stamp, "ackstale") /\ Local(c) = c /\ rem # None /\ (trk[c].recvSent = n \/ (Mut = "ackany" /\ trk[c].recvSent # 0))
              THEN /\ trk' = [trk EXCEPT ![c].recvSent = 0, ![rem].outAcked = n]
                   /\ wch' = SessBcast(wch, k, s.hasCur)
                   /\ sess' = [sess EXCEPT ![k].hasCur = FALSE]
                   /\ badReq' = (badReq \/ stamp # "cur" \/ trk[c].recvSent # n)
-             ELSE UNCHANGED <<trk, wch, sess, badReq>>
+                  /\ UNCHANGED pend
+             ELSE UNCHANGED <<trk, wch, sess, badReq, pend>>
           /\ UNCHANGED <<cst, ret, prevOpen, peers, lst, lusurp, lx, lsent, lwch, lstale, lret, badDeliv, dropFlag>>
 
 HandleClear(c, stamp, n) ==
   /\ cst[c] = "reg"
   /\ LET rem == Remote(c) IN
-     IF stamp = "future" THEN Cleanup(c, "err") /\ UNCHANGED badReq
+     IF stamp = "future" THEN Cleanup(c, "err") /\ UNCHANGED <<badReq, pend>>
      ELSE /\ IF Cur(stamp, "clearstale") /\ Local(c) = c /\ rem # None
-             THEN IF trk[rem].recv = n THEN trk' = [trk EXCEPT ![rem].recv = 0] /\ badReq' = (badReq \/ stamp # "cur")
-                  ELSE IF trk[rem].recvSent = n THEN trk' = [trk EXCEPT ![rem].recvSent = 0, ![rem].recvClear = n] /\ badReq' = (badReq \/ stamp # "cur")
-                  ELSE UNCHANGED <<trk, badReq>>
-             ELSE UNCHANGED <<trk, badReq>>
+             THEN IF trk[rem].recv = n THEN trk' = [trk EXCEPT ![rem].recv = 0] /\ badReq' = (badReq \/ stamp # "cur") /\ pend' = [pend EXCEPT ![c] = IF @ = n THEN 0 ELSE @]
+                  ELSE IF trk[rem].recvSent = n THEN trk' = [trk EXCEPT ![rem].recvSent = 0, ![rem].recvClear = n] /\ badReq' = (badReq \/ stamp # "cur") /\ pend' = [pend EXCEPT ![c] = IF @ = n THEN 0 ELSE @]
+                  ELSE UNCHANGED <<trk, badReq, pend>>
+             ELSE UNCHANGED <<trk, badReq, pend>>
           /\ UNCHANGED <<sess, wch, cst, ret, prevOpen, peers, lst, lusurp, lx, lsent, lwch, lstale, lret, badDeliv, dropFlag>>
 
 \* what one loop iteration decides (shared with RelayTrace.tla, which also records the outputs)
@@ -197,13 +202,15 @@ LoopEmits(c) == ~LoopUsurped(c) /\ (~LoopSame(c) \/ (LoopOpen(c) /\ (trk[c].outA
 LoopStep(c) ==
   /\ cst[c] = "reg" /\ wch[c] = "closed"
   /\ LET k == KeyOf(c)  t == trk[c]  deliver == LoopDeliver(c)  newAnn == LoopNewAnn(c)
-     IN IF LoopUsurped(c) THEN Cleanup(c, "usurped") /\ UNCHANGED badReq
+     IN IF LoopUsurped(c) THEN Cleanup(c, "usurped") /\ UNCHANGED <<badReq, pend>>
         ELSE /\ wch' = LET w1 == [wch EXCEPT ![c] = "cur"] IN IF deliver THEN SessBcast(w1, k, TRUE) ELSE w1
              /\ sess' = [sess EXCEPT ![k].hasCur = ~deliver]
              /\ trk' = IF LoopOpen(c) THEN [trk EXCEPT ![c] = [recv |-> 0, recvSent |-> IF t.recv # 0 THEN t.recv ELSE t.recvSent, recvClear |-> 0, outAcked |-> 0, recvEp |-> "cur"]] ELSE trk
              /\ prevOpen' = [prevOpen EXCEPT ![c] = newAnn]
              /\ badDeliv' = (badDeliv \/ (deliver /\ (newAnn # "cur" \/ t.recvEp = "old")))
              /\ dropFlag' = [dropFlag EXCEPT ![c] = IF newAnn # prevOpen[c] THEN FALSE ELSE @]
+             \* a new announcement ends the epoch the message was sent in; a forwarded ack completes it
+             /\ pend' = [pend EXCEPT ![c] = IF newAnn # prevOpen[c] \/ (LoopOpen(c) /\ t.outAcked = @) THEN 0 ELSE @]
              /\ UNCHANGED <<cst, ret, peers, lst, lusurp, lx, lsent, lwch, lstale, lret, badReq>>
 
 ListenRegister(l) ==
@@ -217,7 +224,7 @@ ListenRegister(l) ==
      \* nonce++ when the tracker existed: every other non-stale running listen call on it is now usurped
      /\ lusurp' = [x \in LCall |-> IF x # l /\ LPeer(x) = p /\ pp.ex /\ lst[x] = "run" /\ ~lstale[x] THEN TRUE ELSE lusurp[x]]
      /\ lst' = [lst EXCEPT ![l] = "run"]
-  /\ UNCHANGED <<sess, trk, cst, wch, prevOpen, ret, lsent, lstale, lret, badDeliv, dropFlag, badReq>>
+  /\ UNCHANGED <<sess, trk, cst, wch, prevOpen, ret, lsent, lstale, lret, badDeliv, dropFlag, badReq, pend>>
 
 ListenCleanup(l, why) ==
   LET p == LPeer(l)  pp == peers[p]
@@ -233,7 +240,7 @@ ListenCleanup(l, why) ==
                ELSE UNCHANGED <<peers, lwch, lstale>>
      \* nonce++ on the shared tracker: any other running call on it no longer matches
      /\ lusurp' = [x \in LCall |-> IF mine /\ x # l /\ LPeer(x) = p /\ lst[x] = "run" /\ ~lstale[x] THEN TRUE ELSE lusurp[x]]
-     /\ UNCHANGED <<sess, trk, cst, wch, prevOpen, ret, lsent, lx, badDeliv, dropFlag, badReq>>
+     /\ UNCHANGED <<sess, trk, cst, wch, prevOpen, ret, lsent, lx, badDeliv, dropFlag, badReq, pend>>
 
 ListenCancel(l) == lst[l] = "run" /\ ListenCleanup(l, "cancel")
 
@@ -250,7 +257,7 @@ ListenStepRA(l, rm, ad) ==
         /\ lsent' = [lsent EXCEPT ![l] = (@ \ {rm}) \cup (IF ad = None THEN {} ELSE {ad})]
         /\ lwch' = [lwch EXCEPT ![l] = IF rm = None /\ ad = None THEN "cur" ELSE "closed"]
         /\ peers' = IF rm = None /\ ad = None /\ ~lstale[l] THEN [peers EXCEPT ![LPeer(l)].hasCur = TRUE] ELSE peers
-  /\ UNCHANGED <<sess, trk, cst, wch, prevOpen, ret, lst, lusurp, lx, lstale, lret, badDeliv, dropFlag, badReq>>
+  /\ UNCHANGED <<sess, trk, cst, wch, prevOpen, ret, lst, lusurp, lx, lstale, lret, badDeliv, dropFlag, badReq, pend>>
 
 ListenUsurpedExit(l) == lst[l] = "run" /\ lwch[l] = "closed" /\ lusurp[l] /\ ListenCleanup(l, "usurped")
 
@@ -279,6 +286,10 @@ DeliveryInAnnouncedEpoch == ~badDeliv
 RequestsNamedAndCurrent == ~badReq
 \* C22 (3): no request stamped with the announced epoch stays silently dropped
 NoSilentDropAtQuiescence == Quiescent => \A c \in Call : ~dropFlag[c]
+\* C22 (4): a message in flight in the epoch announced to its sender never vanishes from the relay without the sender being told
+NoLostInFlight ==
+  Quiescent => \A c \in Call : (cst[c] = "reg" /\ Local(c) = c /\ pend[c] # 0 /\ prevOpen[c] = "cur" /\ Remote(c) # None)
+                                   => (trk[Remote(c)].recv = pend[c] \/ trk[Remote(c)].recvSent = pend[c] \/ trk[c].outAcked = pend[c])
 \* C24
 QuiescentWants ==
   Quiescent => \A l \in LCall : (lst[l] = "run") =>
@@ -301,5 +312,5 @@ SlotsRegistered == \A k \in Key : /\ sess[k].a # None => cst[sess[k].a] = "reg"
                                   /\ sess[k].ex <=> (sess[k].a # None \/ sess[k].b # None)
 WantsMatch == \A p \in Peer : peers[p].wants = {q \in Peer : \E c \in Call : cst[c] = "reg" /\ Local(c) = c /\ Src(c) = q /\ Dst(c) = p}
 
-View == <<sess, trk, cst, wch, prevOpen, peers, lst, lusurp, lsent, lwch, lstale, lx, badDeliv, dropFlag, badReq>>
+View == <<sess, trk, cst, wch, prevOpen, peers, lst, lusurp, lsent, lwch, lstale, lx, badDeliv, dropFlag, badReq, pend>>
 =============================================================================
